@@ -148,6 +148,11 @@ func (c *sivCase) exercise() {
 		ptLens = append(ptLens, n)
 	}
 	ptLens = append(ptLens, 4096, 4097, 8191, 8192, 8208)
+	if x.Thorough() {
+		ptLens = append(ptLens, ref.LongLengths(16, 17)...)
+	} else {
+		ptLens = append(ptLens, ref.LongLengths(13, 17)...)
+	}
 	// (plaintext pattern, AD pattern)
 	pats := [][2]int{{2, 3}}
 	if x.Thorough() {
@@ -534,6 +539,7 @@ func xorendSection(x *h.X) {
 		lens = append(lens, n)
 	}
 	lens = append(lens, 4096, 4097, 8192, 8208)
+	lens = append(lens, ref.LongLengths(14, 17)...)
 	lasts := [][]byte{ref.Pattern(3, 16), ref.Pattern(0, 16), ref.Pattern(1, 16), ref.KeyBytes("last", 16)}
 	for _, n := range lens {
 		for pk := 0; pk < 4; pk++ {
